@@ -738,6 +738,26 @@ bool pd_ext_c(int nt, char **tok)
         ret(0);
         return true;
     }
+    /* ---- feeding a getter's answer back to the setter: the pointer is borrowed from the pipe, which may
+     * hold the only reference on it ---- */
+    if (!strcmp(c, "outself") && nt >= 2) {
+        struct upipe *up = find_any(tok[1]);
+        struct upipe *o = NULL;
+        if (up == NULL) { ret(-1); return true; }
+        int err = upipe_get_output(up, &o);
+        if (!ubase_check(err) || o == NULL) { printf("ret %d none\n", err); return true; }
+        ret(upipe_set_output(up, o));
+        return true;
+    }
+    if (!strcmp(c, "fdself") && nt >= 2) {
+        struct upipe *up = find_any(tok[1]);
+        struct uref *fd = NULL;
+        if (up == NULL) { ret(-1); return true; }
+        int err = upipe_get_flow_def(up, &fd);
+        if (!ubase_check(err) || fd == NULL) { printf("ret %d none\n", err); return true; }
+        ret(upipe_set_flow_def(up, fd));
+        return true;
+    }
     /* ---- segmented block buffers owned by the application: the calls that hand a ubuf over to the
      * chain of another one (append / insert), free segments (truncate / delete / resize) or give
      * segments back (split) ---- */
